@@ -70,7 +70,9 @@ static void latch_prog()
 // ---- barrier ------------------------------------------------------------------------------------
 struct BarState { int arrive[4]; int depart[4]; int completions; int expected[4]; int finished; };
 static BarState* g_bar;
-template <int P, int PHASES, bool OS>
+// PHASE0: value of the phase byte the barrier starts from (the byte advances by 2 per phase and wraps at
+// 256: starting from 252 makes phases 0..2 cross the wrap-around, which would otherwise need 128 phases)
+template <int P, int PHASES, bool OS, int PHASE0 = 0>
 static void barrier_prog()
 {
     static BarState b;
@@ -82,6 +84,12 @@ static void barrier_prog()
     for (int k = 0; k < PHASES; ++k) b.expected[k] = (k == 0 || dropper < 0) ? P : P - 1;
     auto completion = [] { ++g_bar->completions; };
     auto& bar = *new pika::barrier<decltype(completion)>(P, completion);
+    if (PHASE0)
+    {
+        bar.phase.store((pika::detail::barrier_phase_t) PHASE0);
+        for (int n = 0; n < ((P + 1) >> 1); ++n)
+            for (auto& t : bar.base.state[n].tickets) t.phase.store((pika::detail::barrier_phase_t) PHASE0);
+    }
     pmc_watch(&bar, sizeof bar, "barrier");
     pmc_watch(bar.base.state.get(), sizeof(pika::detail::barrier_algorithm_base::state_t) * ((P + 1) >> 1), "tickets");
     auto body = [&bar, dropper](int p, int f) {
@@ -210,6 +218,7 @@ int main(int argc, char** argv)
         {"barrier_2", barrier_prog<2, 2, false>, 2, 3, 0.15, 0.15, 1, "F-addr: barrier (phase, expected, expected_adjustment) + ticket array + task state words", nullptr, nullptr},
         {"barrier_3", barrier_prog<3, 2, false>, 1, 2, 0.2, 0.25, 1, "barrier with 3 participants on 2 workers (non power of two, more participants than workers)", nullptr, nullptr},
         {"barrier_os_3", barrier_prog<3, 2, true>, 1, 2, 0.1, 0.1, 1, "barrier on plain OS threads (spin wait through sched_yield)", nullptr, nullptr},
+        {"barrier_os_3_wrap", barrier_prog<3, 3, true, 252>, 1, 2, 0.05, 0.05, 1, "3 phases on OS threads with the phase byte starting at 252: the phases cross the 8-bit wrap-around", nullptr, nullptr},
         {"event_tasks", event_prog<false>, 2, 3, 0.1, 0.1, 1, "F-addr: event (event_, spinlock, cv queue) + task state words", nullptr, nullptr},
         {"event_os", event_prog<true>, 2, 3, 0.05, 0.05, 1, "event on plain OS threads", nullptr, nullptr},
         {"once_2", once_prog<2>, 2, 3, 0.1, 0.05, 1, "F-addr: once_flag (status_, embedded event) + task state words", nullptr, nullptr},
